@@ -51,6 +51,8 @@ def cfg(defs, plain=None, invariants=(), properties=(), view=None, init="Init", 
     lines = ["CONSTANTS"]
     for k in defs:
         lines.append(" %s <- c_%s" % (k, k))
+    if not defs and not plain:
+        lines.pop()
     for k, v in (plain or {}).items():
         lines.append(" %s = %s" % (k, tla(v) if not isinstance(v, int) or isinstance(v, bool) else str(v)))
     lines.append("INIT " + init)
